@@ -100,23 +100,36 @@ def run_child(sc, res):
         current = None
         last = time.time()
         ended = False
+        # a reader thread feeds a queue: select() on the pipe is unreliable once Python's buffered reader has swallowed several lines
+        import queue
+        import threading
+
+        q = queue.Queue()
+
+        def pump(stream=p.stdout):
+            for ln in stream:
+                q.put(ln)
+            q.put(None)
+
+        threading.Thread(target=pump, daemon=True).start()
         while True:
-            rl, _, _ = select.select([p.stdout], [], [], 1.0)
-            if rl:
-                line = p.stdout.readline()
-                if not line:
+            try:
+                line = q.get(timeout=1.0)
+            except queue.Empty:
+                if time.time() - last > HANG_S:
                     break
-                last = time.time()
-                if line.startswith("START"):
-                    current = int(line.split()[1])
-                elif line.startswith("DONE"):
-                    _, k, js = line.split(" ", 2)
-                    results[int(k)] = json.loads(js)
-                    current = None
-                elif line.startswith("END"):
-                    ended = True
-                    break
-            elif time.time() - last > HANG_S:
+                continue
+            if line is None:
+                break
+            last = time.time()
+            if line.startswith("START"):
+                current = int(line.split()[1])
+            elif line.startswith("DONE"):
+                _, k, js = line.split(" ", 2)
+                results[int(k)] = json.loads(js)
+                current = None
+            elif line.startswith("END"):
+                ended = True
                 break
         try:
             os.killpg(p.pid, signal.SIGKILL)
@@ -242,9 +255,12 @@ def run(res, tier):
                 "distinct (np, n, arrival order, failing positions)")
     res.trusted += ["multiprocessing.Queue is FIFO and reliable; dill/pickle transport fidelity; the main thread's put phase is atomic in the model",
                     "OS scheduling is not modelled, only its observable effect (arrival order) — the theorems hold for every order"]
+    t0 = time.time()
     project_tasks(res)
+    t1 = time.time()
     sc = scenarios(r, tier)
     results = run_child(sc, res)
+    res.extra["phase_seconds"] = {"project_tasks": round(t1 - t0, 1), "scenarios": round(time.time() - t1, 1)}
     lines, idx = [], []
     for k, s in enumerate(sc):
         got = results.get(k)
